@@ -302,10 +302,12 @@ func genH3(seed uint64, tier string) KScenario {
 		sc.Raw = true
 		o.IdleMS = 0 // the raw peer's waiting periods would run into it
 		genH3Raw(r, sc, tier)
+		h3ClampRaw(sc, maxBody/6)
 		return sc
 	case c < 32:
 		sc.RawSrv = true
 		genH3RawSrv(r, sc, tier)
+		h3ClampRaw(sc, maxBody/6)
 		return sc
 	}
 	n := r.Pick(1, 1, 2, 3, 4, 6, 10)
@@ -1535,6 +1537,7 @@ func runH3(t *testing.T, ksc KScenario, res *KResult) {
 	wo := NewWireOracles(w, nodes, res)
 	x := &h3Run{sc: sc, res: res, w: w, nodes: nodes, on: wOraclesEnabled("C18")}
 	wo.on = x.on
+	n0 := runtime.NumGoroutine()
 	w.StartDriver()
 	defer func() {
 		nodes.Close()
@@ -1545,6 +1548,15 @@ func runH3(t *testing.T, ksc KScenario, res *KResult) {
 		}
 		wo.Finish()
 		w.FeedShape()
+		if runtime.NumGoroutine() > n0 {
+			// something is still running: give it a (simulated) second, then name the leak if it is the one known in http3
+			time.Sleep(time.Second)
+			buf := make([]byte, 1<<20)
+			buf = buf[:runtime.Stack(buf, true)]
+			if strings.Contains(string(buf), "http3.(*rawConn).closeQlogger") && !res.Failed() && (x.on["C18"] || x.on["all"]) {
+				res.Fail("http3 goroutine left behind: rawConn.closeQlogger waits forever for a request stream that was never cleared", "the connection has ended, qlog is enabled; goroutines now %d, at the start of the run %d", runtime.NumGoroutine(), n0)
+			}
+		}
 	}()
 	horizon := sc.horizon()
 	runCtx, cancelRun := context.WithTimeout(context.Background(), horizon)
@@ -1965,6 +1977,8 @@ func (x *h3Run) judgeTransport(cause [2]error) {
 				res.Probe("cli:error-after-handler-panic")
 			case p.respBig == 2:
 				res.Probe("cli:oversized-response-header-refused")
+			case sc.Opt.IdleMS > 0 && h3IsNoError(o.rtErr):
+				res.Probe("cli:request-raced-server-idle-timeout")
 			case mustComplete && (errors.Is(o.rtErr, context.Canceled) || errors.Is(o.rtErr, context.DeadlineExceeded)) && len(o.calls) == 0:
 				x.flag(4, "RoundTrip returned a context error although the request's own context is alive (the dial it shared was cancelled by another request)", "%s: %v", what, o.rtErr)
 			case mustComplete:
@@ -2119,6 +2133,8 @@ func (x *h3Run) judgeTransport(cause [2]error) {
 				res.Probe("cli:error-after-handler-panic")
 			case h.CL >= 2:
 				res.Probe("cli:content-length-mismatch-reported")
+			case sc.Opt.IdleMS > 0 && h3IsNoError(o.bodyErr):
+				res.Probe("cli:request-raced-server-idle-timeout")
 			case mustComplete:
 				x.flag(4, "reading the response body failed in a fault-free run: "+h3ErrClass(o.bodyErr), "%s: after %d of %d bytes: %v", what, o.bodyN, wantLen, o.bodyErr)
 			default:
@@ -2129,6 +2145,11 @@ func (x *h3Run) judgeTransport(cause [2]error) {
 	}
 	// ---------------- connection level
 	x.judgeConn(cause, anyIncomplete)
+}
+
+func h3IsNoError(err error) bool {
+	var he *http3.Error
+	return errors.As(err, &he) && he.Remote && he.ErrorCode == http3.ErrCodeNoError
 }
 
 func h3NonEmpty(h http.Header) http.Header {
@@ -2169,6 +2190,18 @@ func (x *h3Run) judgeConn(cause [2]error, incomplete bool) {
 		var ae *quic.ApplicationError
 		if errors.As(err, &ae) && !sc.Raw && !sc.RawSrv {
 			x.flag(3, "HTTP/3 connection error between conformant endpoints: "+h3ErrName(uint64(ae.ErrorCode)), "side %d: %v", side, err)
+			continue
+		}
+		var ie *quic.IdleTimeoutError
+		var ht *quic.HandshakeTimeoutError
+		if side == 1 && (errors.As(err, &ie) || errors.As(err, &ht)) && len(x.sconns) > len(x.cconns) {
+			res.Probe("srv:connection-of-a-cancelled-dial-idled-out") // a cancelled Dial sends no CONNECTION_CLOSE
+			continue
+		}
+		if errors.As(err, &ie) && len(x.cconns) > 1 {
+			// after a failed exchange http3.Transport forgets its connection without closing it (removeClient) and
+			// dials a new one; the orphan lives on until its idle timeout
+			res.Probe("cli:orphaned-connection-idled-out")
 			continue
 		}
 		if x.clean() && !sc.Raw && !sc.RawSrv {
@@ -2578,6 +2611,7 @@ type h3RawObs struct {
 	connErr   error // cause of the connection's end, sampled after the stream's script and the waiting period
 	calls     []*h3SrvObs
 	stopped   bool
+	sid       int64
 }
 
 type h3RawState struct {
@@ -2713,6 +2747,7 @@ func (x *h3Run) rawExec(i int, st *H3RawStream, o *h3RawObs) {
 			case "fin":
 				s.Close()
 			case "reset":
+				time.Sleep(x.rawWait() / 2) // RESET_STREAM discards unread data: let the bytes be consumed first
 				s.CancelWrite(0x10c)
 			}
 		}
@@ -2980,8 +3015,8 @@ func h3RawGot(o *h3RawObs, r *h3RawResp) (kind string, code uint64, text string)
 	if o.respErr != nil && errors.As(o.respErr, &se) && se.Remote {
 		return "stream", uint64(se.ErrorCode), "stream error " + h3ErrName(uint64(se.ErrorCode))
 	}
-	if o.respEOF && r.err == "" && r.status != 0 {
-		return "response", uint64(r.status), "a complete response"
+	if r.status != 0 {
+		return "response", uint64(r.status), "a response"
 	}
 	if o.writeErr != nil && errors.As(o.writeErr, &se) && se.Remote {
 		return "stream", uint64(se.ErrorCode), "STOP_SENDING " + h3ErrName(uint64(se.ErrorCode))
@@ -3086,6 +3121,10 @@ func (x *h3Run) judgeRaw() {
 				break
 			}
 			switch {
+			case kind == "response" && !(o.respEOF && r.err == ""):
+				if !sc.Faulty {
+					x.flag(4, "raw peer: response to a well-formed request incomplete within the waiting period", "%s: %d bytes, parse %q, read error %v", what, len(o.resp), r.err, o.respErr)
+				}
 			case kind == "response":
 				if r.status != 200 {
 					x.flag(3, "raw peer: well-formed request answered with an error status", "%s: %d", what, r.status)
@@ -3186,6 +3225,16 @@ func h3GenRawReq(r *KRng) H3RawStream {
 	st.RespN = r.Pick(0, 10, 1000, 5000, 30000)
 	st.RespTrl = r.P(0.3)
 	return st
+}
+
+func h3ClampRaw(sc *H3Scenario, limit int) {
+	for i := range sc.Streams {
+		st := &sc.Streams[i]
+		st.RespN = min(st.RespN, limit)
+		for k := range st.Frames {
+			st.Frames[k].N = min(st.Frames[k].N, limit)
+		}
+	}
 }
 
 func genH3Raw(r *KRng, sc *H3Scenario, tier string) {
@@ -3545,6 +3594,7 @@ func (x *h3Run) rawServer(ln *h3Listener) {
 				case "fin":
 					s.Close()
 				case "reset":
+					time.Sleep(wait / 2) // RESET_STREAM discards unread data: let the bytes be consumed first
 					s.CancelWrite(0x102)
 				}
 			}
@@ -3559,6 +3609,7 @@ func (x *h3Run) rawServer(ln *h3Listener) {
 				continue
 			}
 			wr = s
+			o.sid = int64(s.StreamID())
 			wg.Add(1)
 			go func() {
 				defer wg.Done()
@@ -3758,6 +3809,19 @@ func (x *h3Run) judgeRawSrv(cause [2]error) {
 		case co.finished && (co.rtErr != nil || co.bodyErr != nil):
 			kind, text = "cerr", "an error at the client only"
 		}
+		if st.Kind == "resp" && kind != "conn" && kind != "stream" && kind != "dead" {
+			// a stream error sent after the script had finished writing is invisible to the server's API: look on the wire
+			for _, p := range x.w.Tap.All {
+				if p.Dir != 0 {
+					continue
+				}
+				for k := range p.Frames {
+					if f := &p.Frames[k]; (f.Name == "STOP_SENDING" || f.Name == "RESET_STREAM") && int64(f.StreamID) == o.sid && f.Code != 0x10c && f.Code != 0x100 {
+						kind, code, text = "stream", f.Code, "stream error "+h3ErrName(f.Code)
+					}
+				}
+			}
+		}
 		what := fmt.Sprintf("raw server script #%d (%s type %d, %d frames, cut %d ppm, end %s)", i, st.Kind, st.UType, len(st.Frames), st.CutPPM, st.End)
 		res.TraceAdd(fmt.Sprintf("%d:%s:%d:%d:%d:%d:%v", i, kind, code, o.wrote, co.status, co.bodyN, co.bodyEOF))
 		res.Logf("%s: expect %s %v %q | got %s; wrote %d writeErr=%v reqErr=%v connErr=%v | client: finished=%v rtErr=%v status=%d bodyN=%d eof=%v bodyErr=%v early=%d trl=%v", what, e.want, e.codes, e.label, text,
@@ -3782,11 +3846,10 @@ func (x *h3Run) judgeRawSrv(cause [2]error) {
 				x.flag(3, "raw server: "+label+": RFC 9114 requires connection error "+strings.Join(names, " or ")+", observed "+text, "%s", what)
 			}
 		case "stream":
-			if !(kind == "stream" && okCode) && !(sc.Faulty && (kind == "none" || kind == "cerr")) {
+			// (a stream that has already ended in both directions cannot carry the error code any more: an error
+			// returned to the caller is then all there is)
+			if !(kind == "stream" && okCode) && kind != "cerr" && !(sc.Faulty && kind == "none") {
 				x.flag(3, "raw server: "+label+": RFC 9114 requires stream error "+strings.Join(names, " or ")+", observed "+text, "%s", what)
-			}
-			if kind == "response" {
-				x.flag(3, "raw server: "+label+": the client accepted the response", "%s", what)
 			}
 		case "cerr":
 			if kind == "response" {
@@ -3860,7 +3923,7 @@ func genH3RawSrv(r *KRng, sc *H3Scenario, tier string) {
 		var fr []H3RawFrame
 		for _, f := range st.Frames {
 			if f.K == "headers" {
-				for r.P(0.25) {
+				for k := 0; k < 4 && r.P(0.25); k++ {
 					fr = append(fr, H3RawFrame{K: "headers", V: 10, W: r.N(4)})
 				}
 			}
